@@ -168,8 +168,9 @@ def run_far(c, o):
         errs.append(float(np.abs(F - F0).max() / np.abs(F0).max()))
     o.info = dict(rel_influence=errs)
     for a, b in zip(errs[:-1], errs[1:]):
-        o.true("far/decay", b <= a / 30.0 or b < 1e-12, "influence of a far surface does not decay like d^-2: %s" % errs)
-    o.le("far/limit", errs[-1], 1e-11, slack=0.0, what="influence at 1e6 chords")
+        # at 1e5..1e6 chords the coordinates themselves carry 1e-16 * 1e6 = 1e-10 relative round-off
+        o.true("far/decay", b <= a / 30.0 or b < 1e-9, "influence of a far surface does not decay like d^-2: %s" % errs)
+    o.le("far/limit", errs[-1], 1e-9, slack=0.0, what="influence at 1e6 chords")
     o.nontrivial = errs[0] > 1e-9
 
 
